@@ -244,6 +244,59 @@ type TypeErrors = Vec<Option<TypeError>>;
 pub(crate) struct TopLevelTypes<'a> {
     pub(crate) struct_names: HashSet<&'a String>,
     pub(crate) enum_names: HashSet<&'a String>,
+    pub(crate) const_types: HashMap<&'a String, &'a Type>,
+}
+
+impl TopLevelTypes<'_> {
+    /// Checks that a const used as (part of) the size of an array type is a declared `usize` const.
+    fn check_array_size_const(&self, name: &String, meta: MetaInfo) -> Result<(), TypeErrors> {
+        let usize_ty = Type::Unsigned(UnsignedNumType::Usize);
+        let e = match self.const_types.get(name) {
+            Some(ty) if **ty == usize_ty => return Ok(()),
+            Some(ty) => TypeErrorEnum::UnexpectedType {
+                expected: usize_ty,
+                actual: (*ty).clone(),
+            },
+            None => TypeErrorEnum::UnknownIdentifier(name.clone()),
+        };
+        Err(vec![Some(TypeError::new(e, meta))])
+    }
+
+    /// Checks that the size expression of an array type only consists of `usize` consts and numbers.
+    fn check_array_size_expr(&self, ConstExpr(expr, meta): &ConstExpr) -> Result<(), TypeErrors> {
+        let unexpected = |actual: Type| {
+            let e = TypeErrorEnum::UnexpectedType {
+                expected: Type::Unsigned(UnsignedNumType::Usize),
+                actual,
+            };
+            Err(vec![Some(TypeError::new(e, *meta))])
+        };
+        match expr {
+            ConstExprEnum::NumUnsigned(
+                _,
+                UnsignedNumType::Usize | UnsignedNumType::Unspecified,
+            ) => Ok(()),
+            ConstExprEnum::NumUnsigned(_, ty) => unexpected(Type::Unsigned(*ty)),
+            ConstExprEnum::NumSigned(_, ty) => unexpected(Type::Signed(*ty)),
+            ConstExprEnum::True | ConstExprEnum::False => unexpected(Type::Bool),
+            ConstExprEnum::ConstExprIdent(name) => self.check_array_size_const(name, *meta),
+            ConstExprEnum::ExternalValue { party, identifier } => {
+                // values of other parties have to be bound to a const before they can be used as a size
+                let e = TypeErrorEnum::UnknownIdentifier(format!("{party}::{identifier}"));
+                Err(vec![Some(TypeError::new(e, *meta))])
+            }
+            ConstExprEnum::Max(args) | ConstExprEnum::Min(args) => {
+                for arg in args {
+                    self.check_array_size_expr(arg)?;
+                }
+                Ok(())
+            }
+            ConstExprEnum::Add(lhs, rhs) | ConstExprEnum::Sub(lhs, rhs) => {
+                self.check_array_size_expr(lhs)?;
+                self.check_array_size_expr(rhs)
+            }
+        }
+    }
 }
 
 impl Type {
@@ -266,10 +319,17 @@ impl Type {
             }
             Type::ArrayConst(elem, size) => {
                 let elem = elem.as_concrete_type(types)?;
+                // (the type carries no location of its own)
+                let meta = MetaInfo {
+                    start: (0, 0),
+                    end: (0, 0),
+                };
+                types.check_array_size_const(size, meta)?;
                 Type::ArrayConst(Box::new(elem), size.clone())
             }
             Type::ArrayConstExpr(elem, size_expr) => {
                 let elem = elem.as_concrete_type(types)?;
+                types.check_array_size_expr(size_expr)?;
                 Type::ArrayConstExpr(Box::new(elem), size_expr.clone())
             }
             Type::Tuple(fields) => {
@@ -365,6 +425,7 @@ impl UntypedProgram {
         let top_level_defs = TopLevelTypes {
             struct_names,
             enum_names,
+            const_types: self.const_defs.iter().map(|(n, c)| (n, &c.ty)).collect(),
         };
         let mut const_deps: HashMap<String, HashMap<String, (Type, MetaInfo)>> = HashMap::new();
         let mut const_types = HashMap::with_capacity(self.const_defs.len());
